@@ -219,6 +219,18 @@ CHECKS = {
          "Frame loss on bursts is a recorded known finding (design-level flow control). Real-time polls make each schedule cost seconds.",
     technique="TLA+ pipeline model (design, envelope) + simulated TNC schedules on real code judged by TLC trace validation",
     design="4 C13"),
+ "C14": dict(
+    level="model_checking",
+    text="Ardop.tla models Write, CRCFAULT re-send (three attempts), BUFFER reports, the flush lock and the control loop; TLC checks "
+         "WriteCountHonest, RetransmitOnCrcFault, FlushAfterBufferZero over all interleavings. Binding: a simulated ARDOP TNC on a "
+         "CRC-protected in-memory serial line (own CRC-16 0x8810/0xFFFF and lexer) and a TCP port pair; schedules in child processes: "
+         "write sizes 1..200 000, 0-3 CRCFAULTs, BUFFER sequences incl. never-zero, ARQ frames 1..65 530 bytes with reader buffers "
+         "1..70 000, FEC/IDF/ERR frames and BUSY/NEWSTATE/PTT events interleaved, dial/listen, refusals, malformed control lines and "
+         "frames; ArdopPropsTrace.tla judges stream equality, host framing, retransmission, Flush, PTT order, DISCONNECT and crashes.",
+    note="Internal goroutine interleavings of the library are not controlled. The model also exhibits a schedule on which Flush never "
+         "returns (BUFFER n and BUFFER 0 processed before Write takes the lock): recorded as an observation, outside C14's wording.",
+    technique="TLA+ transmit-side model (design) + simulated TNC schedules on real code judged by TLC trace validation",
+    design="4 C14"),
 }
 
 NOT_YET = "check not built yet (work in progress; see DESIGN.md section 8 for the build order)"
